@@ -69,6 +69,18 @@ def config_time(quick):
     )
 
 
+def config_reentry(quick):
+    """(E) re-entrancy: a value that logs through another (or the same) logger from inside its String method while
+    the outer record is being formatted; a child created from inside an Each walk."""
+    opt = lambda k, a, b=0: dict(k=k, a=a, b=b)
+    return dict(
+        max_loggers=2 if quick else 3, init_level=5, names=["a"], bool_lists=BOOL_LISTS, layouts=["", "15:04:05"], opt_lists=[[], [opt("JSONMode", 1)]],
+        setter_args={"JSONMode": [(1, 0)], "ColorMode": [(3, 0)], "TimeFormat": [(2, 0)]} if quick else
+        {"JSONMode": [(1, 0)], "TimeFormat": [(2, 0)], "UTCMode": [(1, 0)]},
+        acts=["Set", "New", "LogNest", "EachNew"], probe_sevs=[4], max_list=1,
+    )
+
+
 def big_config(quick):
     """Checked exhaustively by TLC only (too large to replay transition by transition)."""
     c = config(True)
@@ -96,7 +108,7 @@ def rand_config():
         max_loggers=3, init_level=5, names=["a", "b", "c"], bool_lists=BOOL_LISTS, layouts=["", "15:04:05"],
         opt_lists=[[], [opt("Level", 2)], [opt("JSONMode", 1), opt("Attrs", 2, 7)], [opt("Writer", 1)], [opt("Level", 0)],
                    [opt("ColorMode", 3), opt("Level", 5), opt("AddWriter", 2)], [opt("ErrorWriter", 3), opt("UTCMode", 1)]],
-        setter_args=sa, acts=["Set", "With", "New", "NewDetached", "PkgSetLevel", "SetDefault", "Flags", "PkgLevel", "PkgSkip"], probe_sevs=[4, 2],
+        setter_args=sa, acts=["Set", "With", "New", "NewDetached", "PkgSetLevel", "SetDefault", "Flags", "PkgLevel", "PkgSkip", "LogNest", "EachNew"], probe_sevs=[4, 2],
         flag_sets=FLAG_SETS,
     )
 
@@ -109,18 +121,26 @@ def run(ctx, replay):
         # 3 loggers: ~1.4 M states, checked by TLC only (not replayed)
         corelib.mc_only(ctx, big_config(True), invariants=["OneFormat", "TreeOK", "RouteOK"],
                         properties=["Isolation", "TreeMonotone", "DbgSticky"], name="core-mc-big", timeout=3000)
-    corelib.run_core(ctx, c, invariants=["OneFormat", "TreeOK", "RouteOK"],
+    # the six graphs are independent: run them side by side
+    import concurrent.futures
+    jobs = []
+    jobs.append(lambda: corelib.run_core(ctx, c, invariants=["OneFormat", "TreeOK", "RouteOK"],
                      properties=["Isolation", "TreeMonotone", "DbgSticky"], obs=OBS,
-                     rand_count=40 if ctx.quick() else 600, rand_depth=30 if ctx.quick() else 50,
-                     rand_loggers=10 if ctx.quick() else 20, rand_cfg=rand_config(), tag="tree")
-    corelib.run_core(ctx, config_attrs(ctx.quick()), invariants=["TreeOK"], properties=["Isolation"], obs=["cfg", "attrs"],
-                     rand_count=0, rand_depth=0, rand_loggers=3, tag="attrs")
-    corelib.run_core(ctx, config_flags(ctx.quick()), invariants=["FlagsOK", "TreeOK"], properties=["RestoreExact", "DbgSticky"],
-                     obs=["cfg"], rand_count=0, rand_depth=0, rand_loggers=2, tag="flags")
-    corelib.run_core(ctx, config_skip(ctx.quick()), invariants=["TreeOK"], properties=["Isolation", "TreeMonotone"],
-                     obs=["cfg", "tree"], rand_count=0, rand_depth=0, rand_loggers=4, tag="skip")
-    corelib.run_core(ctx, config_time(ctx.quick()), invariants=["TreeOK", "FlagsOK"], properties=["Isolation", "RestoreExact"],
-                     obs=["cfg", "ts"], rand_count=0, rand_depth=0, rand_loggers=3, tag="time")
+                     rand_count=25 if ctx.quick() else 600, rand_depth=25 if ctx.quick() else 50,
+                     rand_loggers=10 if ctx.quick() else 20, rand_cfg=rand_config(), tag="tree"))
+    jobs.append(lambda: corelib.run_core(ctx, config_attrs(ctx.quick()), invariants=["TreeOK"], properties=["Isolation"], obs=["cfg", "attrs"],
+                     rand_count=0, rand_depth=0, rand_loggers=3, tag="attrs", alt_env=False))
+    jobs.append(lambda: corelib.run_core(ctx, config_flags(ctx.quick()), invariants=["FlagsOK", "TreeOK"], properties=["RestoreExact", "DbgSticky"],
+                     obs=["cfg"], rand_count=0, rand_depth=0, rand_loggers=2, tag="flags", alt_env=False))
+    jobs.append(lambda: corelib.run_core(ctx, config_skip(ctx.quick()), invariants=["TreeOK"], properties=["Isolation", "TreeMonotone"],
+                     obs=["cfg", "tree"], rand_count=0, rand_depth=0, rand_loggers=4, tag="skip", alt_env=False))
+    jobs.append(lambda: corelib.run_core(ctx, config_time(ctx.quick()), invariants=["TreeOK", "FlagsOK"], properties=["Isolation", "RestoreExact"],
+                     obs=["cfg", "ts"], rand_count=0, rand_depth=0, rand_loggers=3, tag="time"))
+    jobs.append(lambda: corelib.run_core(ctx, config_reentry(ctx.quick()), invariants=["TreeOK", "OneFormat"], properties=["Isolation", "TreeMonotone"],
+                     obs=["cfg", "tree", "shape"], rand_count=0, rand_depth=0, rand_loggers=3, tag="reentry", alt_env=False))
+    with concurrent.futures.ThreadPoolExecutor(max_workers=3) as pool:
+        for f in [pool.submit(j) for j in jobs]:
+            f.result()
     ctx.assumptions += ["generated (anonymous) logger names never collide (26^-6 per pair)",
                         "attribute probe uses LogAttrs at Always severity; loggers at level Off or with an empty writer list show no attributes"]
     return ctx.finish(rule="every transition of the exhaustive MC graph (3 loggers; New/NewDetached/With*/Set* on level, format, "
